@@ -425,9 +425,10 @@ def t1_exact(lines):
 
 class C20:
     id = PID
-    props_files = ['SmoothProps/C20.lean']
-    props_module = 'SmoothProps.C20'
-    lean_targets = ['SmoothProps.C20']
+    # SrcTieLogic: the scalar decision logic regenerated from the C++ source by tools/gen_logic.py is the model (C20All = C20 + SrcTieLogic)
+    props_files = ['SmoothProps/C20.lean', 'SmoothProps/SrcTieLogic.lean']
+    props_module = 'SmoothProps.C20All'
+    lean_targets = ['SmoothProps.C20All']
     translators = [gen_tables]
     rule = ('harness/poly.cpp: monomial_derivative(s) K=0..10 x p=0..K+2 (P=0..4) x 10 strata of u (zero, +-1, unit, symmetric, tiny, '
             'large, denormal, dyadic, overflow, generic); lagrange_basis K=0..10 x 9 node strata; polynomial_basis_derivatives x 3 kinds of B; '
